@@ -43,11 +43,17 @@ func registerMain() {
 	o := EnvOpts{RebalanceDelay: time.Second}
 	o.defaults()
 	addr := func(id *models.Identity) string { return fmt.Sprintf("%s:%d", id.IP, sdPort) }
+	var hist []string
 	boot := func(name, ip string, join int64) *rpcNode {
 		n := &rpcNode{id: &models.Identity{IP: ip, Name: name, ClusterJoinTime: join}, alive: true}
 		bus := EventBus.New()
 		_ = bus.Subscribe(helpers.MembershipChangedBusEventName, func(m *membership.Model) {
 			n.events = append(n.events, [2]int{m.MemberNumber, m.TotalMembers})
+			// a numbering is announced to the stream only when it differs from the one in effect (every
+			// announcement closes and re-opens the stream)
+			if k := len(n.events); k >= 2 && n.events[k-1] == n.events[k-2] {
+				vrt.Failf("after %v: %s announced the numbering %d/%d although it is already in effect (the stream is interrupted for nothing)", hist, name, m.MemberNumber, m.TotalMembers)
+			}
 		})
 		n.sd = servicediscovery.NewServiceDiscovery(o.config(), bus)
 		vrpc.Serve(addr(n.id), servicediscovery.VerifNewHandler(sdPort, n.id, n.sd))
@@ -55,7 +61,6 @@ func registerMain() {
 		n.sd.StartMonitor()
 		return n
 	}
-	var hist []string
 	leader := boot("L", "10.0.0.1", 1)
 	leader.sd.BeLeader()
 	join := func(n *rpcNode) {
@@ -113,8 +118,26 @@ func registerMain() {
 	check("after registration")
 	victim := nodes[vrt.Choose(nf, true, "victim")]
 	vrt.Window(true)
-	switch vrt.Choose(4, true, "disturbance") {
+	switch vrt.Choose(5, true, "disturbance") {
 	case 0:
+	case 4:
+		// leader fail-over: the leader dies, a new instance takes over the lease; every follower is told
+		// (OnBecomeFollower: drop the old leader, connect to the new one, register). The new leader numbers
+		// the followers as before - for them nothing changes.
+		kill(leader)
+		old := leader
+		leader = boot("L2", "10.0.0.9", 2)
+		leader.sd.BeLeader()
+		for _, n := range nodes {
+			if n.alive {
+				n.sd.DontBeLeader()
+				n.sd.RemoveAll()
+				n.sd.RemoveLeader()
+				join(n)
+			}
+		}
+		_ = old
+		hist = append(hist, "leader-failover")
 	case 3:
 		// a network interruption resets every connection; all processes stay alive. The leader drops the
 		// followers it cannot ping; each follower notices that its leader connection is dead, reconnects and
